@@ -273,6 +273,8 @@ def run(ctx):
                             hl = [l for k, l in links("http", r.out, cfg) if k != "search"]
                             if len(gl) == len(hl):
                                 for (t, name, s, hst, prt), h in zip(gl, hl):
+                                    if re.search(r"%0[9AaDd]", h):
+                                        continue      # TAB, CR, LF in a name: a Gopher menu field cannot carry them (it shows blanks); HTTP's link does
                                     quote_lines.append("quote\t" + enc_str(s))
                                     quote_checks.append(({"selector": s, "dir": sel}, h))
         finally:
